@@ -102,6 +102,10 @@ def _case(rng):
         elif k < 0.91: ops.append(['json', hx(json.dumps(rng.choice([[1, 2, 3], "s", {"a": 1, "b": [True, None]}, 42, []]), separators=(',', ':')))])
         elif k < 0.95: ops.append(['payload', hx(rng.choice(CTYPES)), _body(rng).hex()])
         else: ops.append(['drop'])
+    if rng.random() < 0.006:          # one header removed and set again several hundred times (every dead entry stays in the table of standard headers)
+        h = rng.choice(pool)
+        at = rng.randrange(len(ops) + 1)
+        ops[at:at] = [['set', h, _val(rng)], ['remove', h]] * rng.choice([120, 250, 254, 255, 256, 300, 520])
     status = rng.choice(STATUSES)
     if rng.random() < 0.12:          # the response starts as a typed responder a handler returns (typed::status::X(body) / X / X::at(location)); the history goes on from there
         kind = rng.choice(['string', 'str', 'html', 'json', 'unit', 'bare', 'redirect'])
@@ -125,6 +129,15 @@ def corpus():
         mk(200, [['text', hx('abc')], ['drop'], ['html', hx('<p>')]]),
         mk(200, [['xset', hx('X-A'), '31'], ['xset', hx('Y'), '32'], ['xset', hx('X-Bb'), '33'], ['xremove', hx('X-A')], ['xappend', hx('X-Bb'), '34'], ['xset', hx('X-A'), '35']]),
         mk(200, [['set', 'ContentEncoding', hx('gzip')]]),
+        # a header removed and set again several hundred times on one response (the table of standard headers keeps every dead entry: its one-byte slot index ran over, fix 1007815)
+        mk(200, [['set', 'Server', '61'], ['remove', 'Server']] * 254 + [['set', 'Server', hx('last')]]),
+        mk(200, [['set', 'Server', '61'], ['remove', 'Server']] * 255 + [['set', 'Server', hx('last')]]),
+        mk(200, [['set', 'Vary', hx('Origin')]] + [['set', 'Server', '61'], ['remove', 'Server']] * 256 + [['set', 'Server', hx('b' * 40)], ['set', 'ETag', hx('"1"')]]),
+        mk(404, [['set', 'Via', hx('1.1 a')], ['remove', 'Via'], ['set', 'Age', '31'], ['remove', 'Age']] * 140 + [['text', hx('not here')], ['set', 'Via', hx('1.1 b')]]),
+        # an event stream replaced or dropped (fix 425e3ae): Content-Length beside Transfer-Encoding / a chunked response without a chunk
+        mk(200, [['stream', [hx('tick')]], ['text', hx('hello')]]),
+        mk(500, [['stream', [hx('tick')]], ['drop']]),
+        mk(200, [['stream', [hx('tick')]], ['json', hx('{"error":1}')], ['stream', [hx('again')]]]),
         # a registered field name through the by-name API: set and removed by name
         mk(200, [['xset', hx('Cache-Control'), hx('no-store')], ['xremove', hx('Cache-Control')]]),
         mk(200, [['xset', hx('server'), hx('a')], ['xappend', hx('server'), hx('b')], ['xset', hx('X-A'), '31'], ['xremove', hx('server')], ['xset', hx('VIA'), hx('1.1 p')]]),
@@ -137,12 +150,26 @@ def _stream_case(rng):
     msgs = [rng.choice(['tick', 'a b', 'x' * 40, 'é', '0']) for _ in range(rng.choice([0, 1, 3]))]
     ops = [['stream', [hx(m) for m in msgs]]]
     if rng.random() < 0.5: ops.append(['xset', hx('X-After'), hx('1')])
+    r = rng.random()
+    if r < 0.35:          # a fang replaces or drops the stream a handler answered with (an error page, a redirect without content): the framing follows the content that is sent
+        ops.append(rng.choice([['text', hx('replaced')], ['html', hx('<p>no</p>')], ['json', hx('{"error":1}')], ['payload', hx('image/png'), '0001'], ['drop'], ['drop']]))
+        if rng.random() < 0.3: ops.append(['stream', [hx('again')]])
+    elif r < 0.5: ops.insert(0, rng.choice([['text', hx('first')], ['set', 'Server', hx('s')], ['drop']]))
     return {'status': rng.choice([200, 200, 201, 204, 204, 304, 404]), 'clock': 784111777, 'date': DATE, 'ops': ops}
 
 
 def generate(rng, tier):
     n = 4000 if tier == 'quick' else 120000
     return [{'case': _case(rng)} for _ in range(n)] + [{'case': _stream_case(rng), 'stream': 'stream-content'} for _ in range(n // 140)]
+
+
+CONTENT_OPS = ('text', 'html', 'json', 'payload', 'drop', 'stream', 'typed')
+
+
+def stream_final(case):
+    """the content the response ends up with is an event stream: the index of that op, else None"""
+    last = next((i for i in range(len(case['ops']) - 1, -1, -1) if case['ops'][i][0] in CONTENT_OPS), None)
+    return last if last is not None and case['ops'][last][0] == 'stream' else None
 
 
 def spec_stream(case, out):
@@ -176,7 +203,7 @@ def spec_stream(case, out):
         data, rest = data + rest[:n], rest[n:]
         if rest[:2] != b'\r\n': return 'chunk not terminated by CRLF'
         rest = rest[2:]
-    want = b''.join(b'data: ' + unhx(m) + b'\n\n' for m in case['ops'][0][1])
+    want = b''.join(b'data: ' + unhx(m) + b'\n\n' for m in case['ops'][stream_final(case)][1])
     if data != want: return f'stream body {data[:60]!r}, the messages are {want[:60]!r}'
     return None
 
@@ -224,11 +251,15 @@ def spec_expect(case):
             n = unhx(op[1])
             custom[n] = custom[n] + b', ' + unhx(op[2]) if n in custom else unhx(op[2])
         elif t == 'cookie': cookies.append((unhx(op[1]), unhx(op[2]), op[3]))
+        elif t == 'stream':          # an event stream as content: it announces itself as text/event-stream, uncached, in the chunked coding, with no declared length
+            std['Content-Type'] = b'text/event-stream'; std['Cache-Control'] = b'no-cache, must-revalidate'; std['Transfer-Encoding'] = b'chunked'
+            std.pop('Content-Length', None); body = ('stream', op[1])
         elif t in ('text', 'html', 'json', 'payload'):
             ct = {'text': b'text/plain; charset=UTF-8', 'html': b'text/html; charset=UTF-8', 'json': b'application/json'}.get(t) or unhx(op[1])
             body = unhx(op[2] if t == 'payload' else op[1])
             std['Content-Type'] = ct
             std['Content-Length'] = str(len(body)).encode()
+            std.pop('Transfer-Encoding', None)          # content of a known length replaced the stream: it is sent under its Content-Length, never both (RFC 9112 6.2)
         elif t == 'typed':          # stated from the documentation of the responders: the body as text/plain, text/html or application/json; nothing for () and bare statuses; Location for a redirect
             kind, payload = op[1], unhx(op[3])
             if kind in ('string', 'str', 'html', 'json'):
@@ -236,7 +267,9 @@ def spec_expect(case):
                 body = payload; std['Content-Length'] = str(len(body)).encode()
             elif kind == 'redirect': std['Location'] = payload
         elif t == 'drop':
-            std.pop('Content-Type', None); std.pop('Content-Length', None); body = None
+            std.pop('Content-Type', None); std.pop('Content-Length', None)
+            if isinstance(body, tuple): std.pop('Transfer-Encoding', None)          # the chunked coding goes with the stream it announced
+            body = None
     st = case['status']
     if st == 204:
         std.pop('Content-Length', None); body = None
@@ -302,7 +335,7 @@ def spec_served(case, out):
     """the same response returned by a handler and sent by the real Router::handle: GET is judged like the direct path; HEAD carries no body, the header
     fields of GET (Content-Length / Transfer-Encoding may be left out; a Content-Length that is sent is the one of GET), and no Content-Length under 204"""
     if not out.get('get') or not out.get('head'): return 'the router path wrote no response'
-    stream = bool(case['ops']) and case['ops'][0][0] == 'stream'
+    stream = stream_final(case) is not None
     bad = spec_stream(case, {'wire': out['get']}) if stream else spec_check(case, {'wire': out['get'], 'declared': 1 << 62})
     if bad: return 'GET through Router::handle: ' + bad
     g, h = parse_response(unhx(out['get'])), parse_response(unhx(out['head']))
@@ -326,13 +359,13 @@ def judge(case, out, m):
     if 'wire' in out and 'panic' not in out:
         bad = spec_served(case, out)
         if bad: v.append(('violation', bad))
-    if case['ops'] and case['ops'][0][0] == 'stream':
+    if stream_final(case) is not None:
         if 'panic' in out or 'wire' not in out: return [('violation', 'sending a stream response died: ' + str(out)[:160])]
         bad = spec_stream(case, out)
         return v + ([('violation', bad)] if bad else [])
     bad = spec_check(case, out)
     if bad: v.append(('violation', bad))
-    if m is not None:
+    if m is not None and not any(op[0] == 'stream' for op in case['ops']):          # the model has no stream content: a history in which a stream was replaced is judged by the oracle alone
         mm = m.get('model', {})
         if 'panic' in out or mm.get('wire') != out.get('wire') or mm.get('declared') != out.get('declared'):
             v.append(('disagree', 'model and implementation differ: impl=%s model=%s' % (str(out)[:160], str(mm)[:160])))
